@@ -142,7 +142,8 @@ func vfhC04Polygon() {
 	var rings []LineString
 	nr := vfInt("rings", 0, 2)
 	for i := 0; i < nr; i++ {
-		rings = append(rings, NewLineString(vfSeqF("r", 4, ct)))
+		// rings of 1..4 points: short (invalid) rings must survive NoValidate too
+		rings = append(rings, NewLineString(vfSeqF("r", vfInt("pts", 1, 4), ct)))
 	}
 	p := NewPolygon(rings)
 	if nr == 0 {
